@@ -56,8 +56,12 @@ func (p *Program) Run(ctx context.Context, setters ...Option) (result []byte, er
 	ctx = opts.WithContext(ctx)
 	logger := logging.FromContext(ctx)
 
+	// finished tells a normal return from a panic whose value is nil:
+	// panic(nil) makes recover() return nil as well
+	finished := false
+
 	defer func() {
-		if r := recover(); r != nil {
+		if r := recover(); r != nil || !finished {
 			switch x := r.(type) {
 			case string:
 				err = errors.New(x)
@@ -92,11 +96,15 @@ func (p *Program) Run(ctx context.Context, setters ...Option) (result []byte, er
 
 	if err != nil {
 		js, _ := values.None.MarshalJSON()
+		finished = true
 
 		return js, err
 	}
 
-	return out.MarshalJSON()
+	result, err = out.MarshalJSON()
+	finished = true
+
+	return result, err
 }
 
 func (p *Program) MustRun(ctx context.Context, setters ...Option) []byte {
